@@ -799,3 +799,35 @@ def _eval_guard(e, env):
 def r14(ctx, R):
     from . import c20
     c20.r12(ctx, R)
+
+
+LIFECYCLE = ('reset_status_variables', 'setup_status_variables', 'reset_buffers_nonMPI', 'dependencies', 'post_run_processing')
+
+
+def _trivial(fn):
+    body = [s for s in fn.body if not (isinstance(s, ast.Expr) and isinstance(s.value, ast.Constant))]
+    return all(isinstance(s, (ast.Return, ast.Pass)) and (not isinstance(s, ast.Return) or s.value is None or isinstance(s.value, ast.Constant)) for s in body)
+
+
+@rule('C19', 'C19.R15', 'resets are inherited, not replaced: a convergence controller that overrides a life-cycle callback (reset_status_variables, setup_status_variables, reset_buffers_nonMPI, dependencies, post_run_processing) whose inherited implementation does something also calls it - otherwise what the base class resets at every block (the restart flag of the step, ...) is never reset in that flavour', floor=6)
+def r15(ctx, R):
+    repo = ctx.repo
+    base = repo.cls('pySDC/core/convergence_controller.py', 'ConvergenceController')
+    n = 0
+    for ci in repo.subclasses(base, strict=True):
+        if not repo.is_library(ci):
+            continue
+        for name in LIFECYCLE:
+            fn = ci.methods.get(name)
+            if fn is None:
+                continue
+            nxt = next((c for c in ci.mro[1:] if isinstance(c, ClassInfo) and name in c.methods), None)
+            if nxt is None or _trivial(nxt.methods[name]):
+                continue
+            n += 1
+            w = f'{ci.module.relpath}:{ci.name}.{name}'
+            R.fn(w)
+            sup = any(isinstance(c, ast.Call) and isinstance(c.func, ast.Attribute) and c.func.attr == name and ast.unparse(c.func.value).startswith('super(') for c in ast.walk(fn))
+            R.check(sup, f'{ci.name}.{name} :: calls the implementation it overrides ({nxt.name}.{name})', w, f'super().{name}(..)', 'no call of the inherited implementation')
+    if n < 6:
+        raise AnalysisError(f'C19.R15: only {n} overriding life-cycle callbacks found')
